@@ -60,6 +60,26 @@ Theorem C06_x86_sub_add_inverse : forall p a b, 0 < p -> 0 <= a < 2 * p -> 0 <= 
 Proof. exact X86AluProofs.sub_add_inverse. Qed.
 Print Assumptions C06_x86_sub_add_inverse.
 
+Theorem C06_x86_add_flags : forall p a b, 0 < p -> 0 <= a < 2 * p -> 0 <= b < 2 * p ->
+  let r := (a + b) mod (2 * p) in
+  let f := snd (X86Alu.alu X86Alu.ADD p a b false) in
+  fst (X86Alu.alu X86Alu.ADD p a b false) = Some r /\
+  (X86Alu.CF f = true <-> 2 * p <= a + b) /\
+  (X86Alu.OF f = true <-> ~ (- p <= tosigned p a + tosigned p b < p)) /\
+  (X86Alu.ZF f = true <-> r = 0) /\ (X86Alu.SF f = true <-> p <= r).
+Proof. exact X86AluProofs.add_flags. Qed.
+Print Assumptions C06_x86_add_flags.
+Theorem C06_x86_neg_flags : forall p a, 0 < p -> 0 <= a < 2 * p ->
+  (X86Alu.CF (snd (X86Alu.alu X86Alu.NEG p a 0 false)) = true <-> a <> 0) /\
+  (X86Alu.OF (snd (X86Alu.alu X86Alu.NEG p a 0 false)) = true <-> a = p) /\
+  fst (X86Alu.alu X86Alu.NEG p a 0 false) = Some ((- a) mod (2 * p)).
+Proof. exact X86AluProofs.neg_flags. Qed.
+Print Assumptions C06_x86_neg_flags.
+Theorem C06_x86_inc_dec_keep_carry : forall p a cin,
+  X86Alu.CF (snd (X86Alu.alu X86Alu.INC p a 0 cin)) = cin /\ X86Alu.CF (snd (X86Alu.alu X86Alu.DEC p a 0 cin)) = cin.
+Proof. exact X86AluProofs.inc_dec_keep_carry. Qed.
+Print Assumptions C06_x86_inc_dec_keep_carry.
+
 (* the RISC-V reference *)
 Theorem C06_rv_sext_range : forall v n, 0 < n -> 0 <= v < 2 ^ n -> - 2 ^ (n - 1) <= sext v n < 2 ^ (n - 1).
 Proof. exact sext_range. Qed.
